@@ -49,7 +49,7 @@ class TdmsTimestamp(object):
         return (
                 EPOCH +
                 np.timedelta64(self.seconds, 's') +
-                ((self.second_fractions / fractions_per_step) * np.timedelta64(1, resolution)))
+                (((self.second_fractions + _FRACTIONS_TOLERANCE) / fractions_per_step) * np.timedelta64(1, resolution)))
 
     def as_datetime(self):
         """ Convert this timestamp to a Python datetime.datetime object
@@ -126,7 +126,12 @@ class TimestampArray(np.ndarray):
         return (
                 EPOCH +
                 self['seconds'] * np.timedelta64(1, 's') +
-                (self['second_fractions'] / fractions_per_step) * np.timedelta64(1, resolution))
+                ((self['second_fractions'] + _FRACTIONS_TOLERANCE) / fractions_per_step) * np.timedelta64(1, resolution))
+
+
+# Timestamps are often written with second fractions that were truncated to just below
+# the exact value, so allow a small tolerance (2^-48 s) before truncating to the requested resolution.
+_FRACTIONS_TOLERANCE = 2.0 ** 16
 
 
 _fractions_per_step = {
